@@ -165,6 +165,23 @@ def mk_gcp(ctx):
                 n0 += 1
     ctx.exhaustive.append("get_cursor_position: all pre of length <= %d over 9 symbols x 2 CSI x 3 reports x 3 trailing x "
                           "callback on/off: %d cases" % (maxlen, n0))
+    # runs of CONSECUTIVE failing reads (the read retries until it succeeds - any number of times) at every kind of
+    # position: before the reply, inside the preceding keys, at the report's start, inside the report, before its R
+    nrun = 0
+    for run in (1, 2, 15, 16, 17, 64, 250):
+        for pre, csi, rep, post, cb in itertools.product(("", "a", "ab\x1b", "\x1b[1;"), (ESC + "[", CSI8), ((1, 1), (24, 80)),
+                                                         ("", "x"), (True, False)):
+            body = list(pre + csi + "%d;%dR" % rep)
+            spots = sorted({0, len(pre) // 2, max(len(pre) - 1, 0), len(pre), len(pre) + len(csi), len(pre) + len(csi) + 1,
+                            len(body) - 2, len(body) - 1})
+            for at in spots:
+                events = body[:at] + ["E"] * run + body[at:] + list(post)
+                cases.append(dict(kind="gcp", pre=pre, report=rep, post=list(post), cb=cb, events=events,
+                                  lookalike=bool(REPORT.search(pre))))
+                nrun += 1
+    ctx.exhaustive.append("get_cursor_position: runs of 1,2,15,16,17,64,250 consecutive OSErrors at 8 positions (before the "
+                          "reply, inside the preceding input, at the report start, inside the report, before R) x 4 preceding "
+                          "inputs x 2 CSI x 2 reports x trailing x callback: %d cases" % nrun)
     r = ctx.rng
     for _ in range(6000 if ctx.thorough else 1500):
         # longer pre, possibly containing a complete look-alike; OSErrors; ''-reads; a non-ASCII digit
@@ -182,6 +199,8 @@ def mk_gcp(ctx):
         for ch in body[:len(body) - len(post)]:
             while r.random() < 0.15:
                 events.append("E")
+            if r.random() < 0.02:
+                events += ["E"] * r.choice([16, 17, 40, 300])     # a long run of failures of one read
             events.append(ch)
         has_empty = False
         if r.random() < 0.1:
@@ -218,7 +237,13 @@ def opt(v):
 
 def round_events(rd):
     """the in_stream events of one round: a report, or what makes the query raise ValueError"""
-    row, _nested, how = rd
+    row, how = rd[0], rd[2]
+    nerr = rd[3] if len(rd) > 3 else 0          # consecutive OSErrors before/inside this round's report (retried)
+    if nerr:
+        rep = list(report_for(row))
+        k = min(2, len(rep))
+        tail = rep[:k] + ["E"] * nerr + rep[k:]
+        return (["a"] if how == "pre" else []) + (["Z"] if how == "Z" else tail)
     if how == "pre":                      # input ahead of the report and no callback
         return list("a" + report_for(row))
     if how == "Z":                        # a read returning ''
@@ -355,6 +380,11 @@ def mk_diff(ctx):
             # the query of one round raises ValueError: input ahead of the report without a callback, or a '' read
             i = r.randrange(len(rounds))
             rounds[i] = (rounds[i][0], rounds[i][1], r.choice(["pre", "Z"]))
+        if r.random() < 0.2:
+            # one read of one round fails many times in a row before it succeeds
+            i = r.randrange(len(rounds))
+            if rounds[i][2] != "Z":
+                rounds[i] = rounds[i][:3] + (r.choice([1, 15, 16, 17, 64]),)
         if r.random() < 0.3:
             rounds += [(r.randint(0, 30), r.choice([0, 1]), None)]    # unread further input
         vd.append(dict(kind="vdiff", top=r.randint(0, 12), last=r.choice([None] + list(range(0, 30))),
@@ -518,7 +548,11 @@ def seq_oracle(ctx):
                 except Exception as e:  # noqa: BLE001
                     crashed = e
                     break
-            w.in_stream = Scripted(report_for(row))
+            rep = list(report_for(row))
+            if r.random() < 0.2:
+                k = r.randint(0, len(rep) - 1)
+                rep = rep[:k] + ["E"] * r.choice([3, 16, 17, 100]) + rep[k:]     # a read failing many times in a row
+            w.in_stream = Scripted(rep)
             try:
                 total += w.get_cursor_vertical_diff()
             except Exception as e:  # noqa: BLE001
